@@ -5,6 +5,9 @@
 // Scenario (one JSON line):
 //   producers : [[op,...],...]   op = {"k":"log","n":N}   LogStream(log) << line                (N >= 20)
 //                                     {"k":"raw","n":N}   log->debugLog(line)                   (N >= 1)
+//                                     {"k":"nest","n":N},{"k":"nestout","n":M}   one statement  LogStream(log) << head << f() << tail  whose operand f()
+//                                                       itself logs line N through LogStream before it returns (two LogStreams alive on
+//                                                       the thread at once); head+tail is line M, attributed to the second op
 //                                     {"k":"dis"} {"k":"en"}         LogStream(log) << Control alone
 //                                     {"k":"dislog","n":N}           << DISABLE << text  (no line; stays disabled)
 //                                     {"k":"enlog","n":N}            << ENABLE << line   (line)
@@ -229,6 +232,15 @@ struct Run {
   abort();
 }
 
+// operand of a nested statement: logs its own line, contributes nothing to the outer one
+std::string nestedInner(Log& log, int tid, int seq, size_t n) {
+  std::string line = makeLine(tid, seq, n < kBigMin ? kBigMin : n);
+  line.pop_back();
+  LogStream(log) << line;
+  t_seq = seq + 1;
+  return std::string();
+}
+
 void producer(Run& r, int tid, const Json::Value& ops) {
   t_tid = tid;
   Log& log = *r.log;
@@ -260,7 +272,14 @@ void producer(Run& r, int tid, const Json::Value& ops) {
       // LogStream forms: the stream appends std::endl itself
       std::string line = makeLine(tid, seq, n < kBigMin ? kBigMin : n);
       line.pop_back();
-      if (k == "log") {
+      if (k == "nest" && i + 1 < ops.size() && ops[i + 1]["k"].asString() == "nestout") {
+        size_t m = ops[i + 1].get("n", 0).asUInt64();
+        std::string outer = makeLine(tid, seq + 1, m < kBigMin ? kBigMin : m);
+        outer.pop_back();
+        size_t cut = outer.size() / 2;
+        LogStream(log) << outer.substr(0, cut) << nestedInner(log, tid, seq, n) << outer.substr(cut);
+        i++;  // the statement stands for both ops
+      } else if (k == "log" || k == "nest" || k == "nestout") {
         LogStream(log) << line;
       } else if (k == "dis") {
         LogStream(log) << LogStream::Control::DISABLE;
@@ -321,6 +340,9 @@ void runScenario(const Json::Value& sc, Json::Value& out) {
   r.co.finished.assign(np, 0);
   r.log = Log::get_for_unittest(kfd, *r.os, /* inl= */ false);
 
+  // a script that starts by closing the gate means "closed from the start": the producers must not get their first
+  // lines through before the conductor thread is scheduled (seen under load: nothing left for the io thread to block on)
+  if (sc["script"].size() > 0 && sc["script"][0]["k"].asString() == "close") r.buf.open = false;
   std::vector<std::thread> th;
   for (size_t p = 0; p < np; p++) th.emplace_back(producer, std::ref(r), (int)p, std::cref(prods[(int)p]));
 
